@@ -159,10 +159,10 @@ Definition saturation_model {V W P R : Type}
 (* Part 3a: IEEE instances of Part 1                                   *)
 (* ------------------------------------------------------------------ *)
 (* A format is (prec, emax) with the two side conditions Flocq wants. *)
-Definition Hp24 : Prec_gt_0 24 := eq_refl.
-Definition He24 : Prec_lt_emax 24 128 := eq_refl.
-Definition Hp53 : Prec_gt_0 53 := eq_refl.
-Definition He53 : Prec_lt_emax 53 1024 := eq_refl.
+#[global] Instance Hp24 : Prec_gt_0 24 := eq_refl.
+#[global] Instance He24 : Prec_lt_emax 24 128 := eq_refl.
+#[global] Instance Hp53 : Prec_gt_0 53 := eq_refl.
+#[global] Instance He53 : Prec_lt_emax 53 1024 := eq_refl.
 Definition b32 : Type := binary_float 24 128.
 Definition b64 : Type := binary_float 53 1024.
 
